@@ -95,6 +95,12 @@ End Natives.
 Lemma wf_delpaths_tree : delete_empty_owned = true -> forall v ps, writes_fresh (delpaths1 delete_empty_owned v ps).
 Proof. intros ->. apply wf_delpaths_repaired. Qed.
 
+(* the live statement: delpaths with the deleteEmpty that is in the tree NOW.  The proof only type-checks while
+   the translator reports the repaired shape (delete_empty_owned computes to true): a regression to the
+   sweeping function breaks this obligation. *)
+Lemma wf_delpaths_current : forall v ps, writes_fresh (delpaths1 delete_empty_owned v ps).
+Proof. exact (wf_delpaths_tree eq_refl). Qed.
+
 Lemma wf_delpaths_refuted : ~ (forall v ps, writes_fresh (delpaths1 false v ps)).
 Proof.
   intros H. destruct delpaths_witness as (r & s' & E & Hw & Ha & _).
